@@ -162,7 +162,7 @@ def apply_chain(text, chain):
 
 # ---------------------------------------------------------------- broken inputs (C19)
 
-BREAK_KINDS = ("truncate", "delete", "duplicate", "swap", "paren")
+BREAK_KINDS = ("truncate", "delete", "duplicate", "swap", "paren", "firstline")
 
 
 def break_text(text, kind, k=0):
@@ -171,6 +171,19 @@ def break_text(text, kind, k=0):
     idx = [i for i, (kd, t) in enumerate(S) if kd not in vlex.NONCODE]
     if len(idx) < 4:
         return None
+    if kind == "firstline":
+        # the file starts directly with code and the damage is on line 1
+        first = idx[0]
+        S2 = S[first:]
+        line1 = [i for i, (kd, t) in enumerate(S2) if kd not in vlex.NONCODE]
+        end = next((i for i, (kd, t) in enumerate(S2) if kd == "ws" and "\n" in t), len(S2))
+        line1 = [i for i in line1 if i < end]
+        if len(line1) < 2:
+            return None
+        j = line1[1 + (k % max(1, len(line1) - 1))] if len(line1) > 1 else line1[0]
+        how = k % 2
+        T = [(t + " " + t) if (n == j and how) else ("" if n == j else t) for n, (_, t) in enumerate(S2)]
+        return "".join(T)
     if kind == "truncate":
         j = rng.choice(idx[1:])
         return "".join(t for _, t in S[:j])
